@@ -121,7 +121,7 @@ def ev(u, ph="X", ts=0, dur=None, name="n", pid=0, tid=1, args=None, attr=None, 
 
 
 def _s(x):
-    return "%00" if x == "" else str(x)
+    return "%00" if x == "" else str(x).replace(" ", "%20")
 
 
 def _leaf(v):
@@ -155,7 +155,7 @@ def line(case):
 
 
 def _unleaf(t, v):
-    return (t, "" if v == "%00" else v)
+    return (t, "" if v == "%00" else v.replace("%20", " "))
 
 
 def parse_model(s):
@@ -171,7 +171,8 @@ def parse_model(s):
             a = []
         else:
             a = sorted((("" if k == "%00" else k),) + _unleaf(t, v) for k, t, v in (kv.split("~") for kv in args.split("&")))
-        out.append([int(uid), "" if ph == "%00" else ph, None if name == "-" else ("" if name == "%00" else name),
+        out.append([int(uid), "" if ph == "%00" else ph,
+                    None if name == "-" else ("" if name == "%00" else name.replace("%20", " ")),
                     [list(x) for x in a] if a is not None else None])
     return {"out": out, "err": err}
 
@@ -232,7 +233,9 @@ def run_e2e(case):
         files.setdefault(f"{'abc'[fi]}.json", []).append({k: v for k, v in e.items() if k != "u"})
     if not files:
         files = {"a.json": []}
-    res = stage.e2e(cli_argv(case)[2:], files)
+    # rerun: the SAME Acelyzer object analyses the inputs a second time (the documented API allows it); the
+    # selection of the second run is the one the statement describes, not a continuation of the first
+    res = stage.e2e(cli_argv(case)[2:], files, post=(lambda ace: ace.run()) if case.get("rerun") else None)
     if res["rc"] != 0 or res["events"] is None:
         return None, res
     return [e["args"]["uid"] for e in res["events"] if e.get("ph") == "X" and "uid" in e.get("args", {})], res
@@ -429,7 +432,8 @@ def gen_grid(ctx: Ctx):
                 yield {"limit": lim, "filter": "", "events": [alpha(i + 1, j) for i, j in enumerate(combo)]}
 
 
-NAMES = ["AllReduce_RDMA_Send", "Receive_x", "Cmpt_Exec", "foo", "foobar", "barfoo", "DmaI", "RDMA_Receive", "a.b", "x"]
+NAMES = ["AllReduce_RDMA_Send", "Receive_x", "Cmpt_Exec", "foo", "foobar", "barfoo", "DmaI", "RDMA_Receive", "a.b", "x",
+         "bar foo", "x Exec", "Exec x", "a foo bar"]
 LITS = ["foo", "bar", "Rdma", "RDMA", "Recv", "Receive", "Exec", "a", "x", "16", "0x10", "3", "u1", "", "Cmpt_Exec", "7"]
 
 
@@ -441,6 +445,9 @@ LIKELY = {"name": ["foo", "Rdma", "Recv", "Exec", "RDMA", "Receive", "a", "x", "
 
 def gen_rx(rng, attr=None):
     lit = rng.choice(LIKELY[attr]) if attr in LIKELY and rng.random() < 0.7 else rng.choice(LITS)
+    if rng.random() < 0.15:
+        # a blank at the edge of the expression is part of it (` Exec$` is "ends in the word Exec")
+        lit = rng.choice([" " + lit, lit + " "])
     return ("^" if rng.random() < 0.3 else "") + lit + ("$" if rng.random() < 0.3 else "")
 
 
@@ -651,6 +658,8 @@ def run(ctx: Ctx):
         case = {"limit": gen_limit(rng), "filter": gen_filter(rng) if rng.random() < 0.6 else "", "events": evs}
         if split:
             case["split"] = split
+        if rng.random() < 0.25:
+            case["rerun"] = True
         case["limit"].pop("no_count_types", None)
         x = expected(case)
         if x is None:
